@@ -30,7 +30,9 @@ RULE = ("(det) random valid calls with a fixed seed in {0,5,2^31-1}, with and wi
         "probability-0 states must have count 0), violation iff p < 1e-9; (hook) all of the above plus 300-spin random "
         "graphs and degree-6 PUSOs run under the H2 hook. Non-trivial = model with >= 2 variables and >= 2 terms; "
         "distinct = digest of the configuration")
-TIERS = {"quick": {"shards": 8, "cases": 160}, "thorough": {"shards": 16, "cases": 4000}}
+TIERS = {"quick": {"shards": 8, "cases": 200}, "thorough": {"shards": 16, "cases": 4000}}
+FLOOR_BASE = {"quick": 160, "thorough": 4000}    # case counts the floors below were calibrated for; the launcher scales them
+FLOOR_FIXED = {"hook:big-workloads"}
 P_THRESHOLD = 1e-9
 
 
